@@ -27,6 +27,7 @@ import (
 	"go/printer"
 	"go/token"
 	"go/types"
+	"os"
 	"reflect"
 	"sort"
 	"strings"
@@ -48,8 +49,22 @@ var baseline = func() map[string]bool {
 	return m
 }()
 
-// InBaseline reports whether the named function existed in the pinned tree.
-func InBaseline(name string) bool { return baseline[name] }
+// Renamed holds the keys (FuncName format) of functions of the current tree
+// that are renamed baseline functions (set by the driver from base.Resolve):
+// they are not new.
+var Renamed = map[string]bool{}
+
+// TreatAllAsNew makes every function a candidate (self-test of the inliner).
+var TreatAllAsNew bool
+
+// InBaseline reports whether the named function existed in the pinned tree
+// (possibly under another name).
+func InBaseline(name string) bool {
+	if TreatAllAsNew {
+		return false
+	}
+	return baseline[name] || Renamed[name]
+}
 
 // FuncName is the baseline key of a declared function: "pkgpath.Name" or
 // "pkgpath.(*T).Name" / "pkgpath.(T).Name".
@@ -107,12 +122,14 @@ type inliner struct {
 	dirty   map[*ast.File]bool
 	state   map[*types.Func]int // 0 unvisited, 1 in progress, 2 done
 	origOf  map[*ast.Ident]*ast.Ident
+	// package-name identifiers inside generated type expressions -> import path
+	pkgIdent map[*ast.Ident]string
 }
 
 // Transform inlines calls of non-baseline functions in the given (module)
 // packages. It never fails: anything unexpected leaves the code as it is.
 func Transform(pkgs []*packages.Package, excluded func(filename string) bool) *Result {
-	in := &inliner{res: &Result{Overlay: map[string][]byte{}}, callees: map[*types.Func]*callee{}, dirty: map[*ast.File]bool{}, state: map[*types.Func]int{}, origOf: map[*ast.Ident]*ast.Ident{}}
+	in := &inliner{res: &Result{Overlay: map[string][]byte{}}, callees: map[*types.Func]*callee{}, dirty: map[*ast.File]bool{}, state: map[*types.Func]int{}, origOf: map[*ast.Ident]*ast.Ident{}, pkgIdent: map[*ast.Ident]string{}}
 	if len(pkgs) == 0 {
 		return in.res
 	}
@@ -129,7 +146,7 @@ func Transform(pkgs []*packages.Package, excluded func(filename string) bool) *R
 					continue
 				}
 				name := FuncName(pk.PkgPath, fd)
-				if baseline[name] {
+				if InBaseline(name) {
 					continue
 				}
 				obj, _ := pk.TypesInfo.Defs[fd.Name].(*types.Func)
@@ -208,7 +225,7 @@ func Transform(pkgs []*packages.Package, excluded func(filename string) bool) *R
 	for _, c := range in.callees {
 		// only functions that were called, whose every call was inlined, and
 		// that nothing outside the module can call
-		if c.reason != "" || used[c.obj] || c.sites == 0 || c.obj.Exported() {
+		if c.reason != "" || used[c.obj] || c.sites == 0 || c.obj.Exported() || os.Getenv("NVET_KEEPDEAD") != "" {
 			continue
 		}
 		for i, d := range c.file.Decls {
@@ -225,8 +242,13 @@ func Transform(pkgs []*packages.Package, excluded func(filename string) bool) *R
 		}
 		f.Comments = nil
 		stripDocs(f)
+		pruneImports(f, pkgOfFile(pkgs, f))
 		var buf bytes.Buffer
-		cfg := printer.Config{Mode: printer.SourcePos | printer.TabIndent | printer.UseSpaces, Tabwidth: 8}
+		mode := printer.SourcePos | printer.TabIndent | printer.UseSpaces
+		if os.Getenv("NVET_NOLINE") != "" {
+			mode = printer.TabIndent | printer.UseSpaces
+		}
+		cfg := printer.Config{Mode: mode, Tabwidth: 8}
 		if err := cfg.Fprint(&buf, in.fset, f); err != nil {
 			continue
 		}
@@ -660,7 +682,15 @@ func (in *inliner) expand(pk *packages.Package, file *ast.File, st *site, ownerD
 		if !ok {
 			return true
 		}
-		obj := c.pkg.TypesInfo.Uses[id]
+		orig := id
+		for in.origOf[orig] != nil {
+			orig = in.origOf[orig]
+		}
+		if path, ok := in.pkgIdent[orig]; ok {
+			pkgNames[id] = path
+			return true
+		}
+		obj := c.pkg.TypesInfo.Uses[orig]
 		if obj == nil {
 			return true
 		}
@@ -691,7 +721,49 @@ func (in *inliner) expand(pk *packages.Package, file *ast.File, st *site, ownerD
 		if q.failed {
 			return nil, false
 		}
-		return parseTypeExpr(s)
+		e, ok := parseTypeExpr(s)
+		if !ok {
+			return nil, false
+		}
+		// every name in the type must still mean a type / package at the call
+		// site (a parameter or local of the caller may shadow it)
+		shadowed := false
+		ast.Inspect(e, func(n ast.Node) bool {
+			switch x := n.(type) {
+			case *ast.SelectorExpr:
+				if id, ok := x.X.(*ast.Ident); ok && callScope != nil {
+					if _, obj := callScope.LookupParent(id.Name, st.call.Pos()); obj != nil {
+						if _, isPkg := obj.(*types.PkgName); !isPkg {
+							shadowed = true
+						}
+					}
+				}
+				return false
+			case *ast.Ident:
+				if callScope != nil {
+					if _, obj := callScope.LookupParent(x.Name, st.call.Pos()); obj != nil {
+						if _, isType := obj.(*types.TypeName); !isType {
+							shadowed = true
+						}
+					}
+				}
+			}
+			return true
+		})
+		if shadowed {
+			return nil, false
+		}
+		ast.Inspect(e, func(n ast.Node) bool {
+			if x, ok := n.(*ast.SelectorExpr); ok {
+				if id, ok := x.X.(*ast.Ident); ok {
+					if path, ok := q.used[id.Name]; ok {
+						in.pkgIdent[id] = path
+					}
+				}
+			}
+			return true
+		})
+		return e, true
 	}
 	// receiver and arguments, in evaluation order
 	type bind struct {
@@ -748,15 +820,16 @@ func (in *inliner) expand(pk *packages.Package, file *ast.File, st *site, ownerD
 		pre = append(pre, &ast.DeclStmt{Decl: &ast.GenDecl{Tok: token.VAR, Specs: []ast.Spec{&ast.ValueSpec{Names: []*ast.Ident{ast.NewIdent(r)}, Type: te}}}})
 	}
 	// body copy
-	var inner []ast.Stmt
+	var inner, paramBinds []ast.Stmt
 	for _, b := range binds {
 		if b.name == "" || b.name == "_" {
 			continue
 		}
-		inner = append(inner, &ast.AssignStmt{Lhs: []ast.Expr{ast.NewIdent(b.name)}, Tok: token.DEFINE, Rhs: []ast.Expr{ast.NewIdent(b.tmp)}})
-		inner = append(inner, &ast.AssignStmt{Lhs: []ast.Expr{ast.NewIdent("_")}, Tok: token.ASSIGN, Rhs: []ast.Expr{ast.NewIdent(b.name)}})
+		paramBinds = append(paramBinds, &ast.AssignStmt{Lhs: []ast.Expr{ast.NewIdent(b.name)}, Tok: token.DEFINE, Rhs: []ast.Expr{ast.NewIdent(b.tmp)}})
+		paramBinds = append(paramBinds, &ast.AssignStmt{Lhs: []ast.Expr{ast.NewIdent("_")}, Tok: token.ASSIGN, Rhs: []ast.Expr{ast.NewIdent(b.name)}})
 	}
-	// named results are ordinary variables of the body
+	// named results are ordinary variables of the body; they are declared
+	// before the parameters are bound (a parameter may shadow a type name)
 	var namedRes []string
 	for i := 0; i < sig.Results().Len(); i++ {
 		rn := sig.Results().At(i).Name()
@@ -768,12 +841,39 @@ func (in *inliner) expand(pk *packages.Package, file *ast.File, st *site, ownerD
 		inner = append(inner, &ast.DeclStmt{Decl: &ast.GenDecl{Tok: token.VAR, Specs: []ast.Spec{&ast.ValueSpec{Names: []*ast.Ident{ast.NewIdent(rn)}, Type: te}}}})
 		inner = append(inner, &ast.AssignStmt{Lhs: []ast.Expr{ast.NewIdent("_")}, Tok: token.ASSIGN, Rhs: []ast.Expr{ast.NewIdent(rn)}})
 	}
+	inner = append(inner, paramBinds...)
 	body := cloneNode(c.decl.Body, func(orig, cp *ast.Ident) {
 		in.origOf[cp] = orig
 		if path, ok := pkgNames[orig]; ok {
 			cp.Name = q.nameOf(path)
 		}
 	}).(*ast.BlockStmt)
+	// labels of nested, already expanded helpers must stay unique per function
+	relabel := map[string]string{}
+	ast.Inspect(body, func(n ast.Node) bool {
+		if ls, ok := n.(*ast.LabeledStmt); ok {
+			in.n++
+			relabel[ls.Label.Name] = fmt.Sprintf("inl%d_done", in.n)
+		}
+		return true
+	})
+	if len(relabel) > 0 {
+		ast.Inspect(body, func(n ast.Node) bool {
+			switch x := n.(type) {
+			case *ast.LabeledStmt:
+				if nn, ok := relabel[x.Label.Name]; ok {
+					x.Label = ast.NewIdent(nn)
+				}
+			case *ast.BranchStmt:
+				if x.Label != nil {
+					if nn, ok := relabel[x.Label.Name]; ok {
+						x.Label = ast.NewIdent(nn)
+					}
+				}
+			}
+			return true
+		})
+	}
 	okRet := true
 	rewriteReturns(body, func(r *ast.ReturnStmt) []ast.Stmt {
 		var out []ast.Stmt
@@ -845,6 +945,7 @@ type qualifier struct {
 	pk     *packages.Package
 	file   *ast.File
 	failed bool
+	used   map[string]string // name -> path
 }
 
 func (q *qualifier) nameOf(path string) string {
@@ -879,6 +980,10 @@ func (q *qualifier) qual(p *types.Package) string {
 		q.failed = true
 		return p.Name()
 	}
+	if q.used == nil {
+		q.used = map[string]string{}
+	}
+	q.used[n] = p.Path()
 	return n
 }
 
@@ -1030,4 +1135,75 @@ func exprString(e ast.Expr) string {
 	var buf bytes.Buffer
 	printer.Fprint(&buf, token.NewFileSet(), e)
 	return buf.String()
+}
+
+func pkgOfFile(pkgs []*packages.Package, f *ast.File) *packages.Package {
+	for _, pk := range pkgs {
+		for _, g := range pk.Syntax {
+			if g == f {
+				return pk
+			}
+		}
+	}
+	return nil
+}
+
+// pruneImports drops imports whose name no longer occurs in the file (all
+// users were moved to another file or dropped).
+func pruneImports(f *ast.File, pk *packages.Package) {
+	used := map[string]bool{}
+	ast.Inspect(f, func(n ast.Node) bool {
+		if _, isImp := n.(*ast.ImportSpec); isImp {
+			return false
+		}
+		if id, ok := n.(*ast.Ident); ok {
+			used[id.Name] = true
+		}
+		return true
+	})
+	nameOf := func(imp *ast.ImportSpec) string {
+		if imp.Name != nil {
+			return imp.Name.Name
+		}
+		path := strings.Trim(imp.Path.Value, "\"")
+		if pk != nil {
+			if ip := pk.Imports[path]; ip != nil {
+				return ip.Name
+			}
+		}
+		if i := strings.LastIndex(path, "/"); i >= 0 {
+			return path[i+1:]
+		}
+		return path
+	}
+	keep := func(imp *ast.ImportSpec) bool {
+		n := nameOf(imp)
+		return n == "_" || n == "." || used[n]
+	}
+	var imports []*ast.ImportSpec
+	for _, imp := range f.Imports {
+		if keep(imp) {
+			imports = append(imports, imp)
+		}
+	}
+	f.Imports = imports
+	var decls []ast.Decl
+	for _, d := range f.Decls {
+		gd, ok := d.(*ast.GenDecl)
+		if !ok || gd.Tok != token.IMPORT {
+			decls = append(decls, d)
+			continue
+		}
+		var specs []ast.Spec
+		for _, sp := range gd.Specs {
+			if keep(sp.(*ast.ImportSpec)) {
+				specs = append(specs, sp)
+			}
+		}
+		if len(specs) > 0 {
+			gd.Specs = specs
+			decls = append(decls, gd)
+		}
+	}
+	f.Decls = decls
 }
